@@ -24,8 +24,7 @@ ASSUMPTIONS = [
     'ShellComp::Raw strings and &\'static constants are supplied by the developer, not by the user at completion time',
     'shell semantics: text inside single quotes with \' -> \'\\\'\' is data for bash and zsh',
 ]
-FLOORS = {'T1.typed-quoting': 14, 'T2.newline': 20, 'T3.accumulator': 4, 'T4.coverage': 7,
-          'T5.escaper': 4, 'T6.dispatch': 5, 'T7.stubs': 8}
+FLOORS = {'T1.typed-quoting': 19, 'T2.newline': 23, 'T3.accumulator': 6, 'T4.coverage': 12, 'T5.escaper': 5, 'T6.dispatch': 5, 'T7.stubs': 8}
 
 RENDERERS = ['render_zsh', 'render_bash', 'render_fish', 'render_simple']
 INT_TYPES = {'usize', 'u8', 'u16', 'u32', 'u64', 'u128', 'isize', 'i8', 'i16', 'i32', 'i64', 'i128'}
